@@ -44,7 +44,7 @@ def _case(draw, unit):
             'N': draw(st.sampled_from([1, 1, 2, 3])), 'C': draw(st.sampled_from([1, 2, 3, 3, 7])),
             'dtype': draw(st.sampled_from(['f64', 'f64', 'f64', 'f32'])),
             'filt_form': draw(st.sampled_from(['names', 'names', 'names', 'tuples'])),
-            'reused': draw(st.integers(0, 2)) == 0,
+            'reused': draw(st.integers(0, 2)) == 0, 'ctx': draw(st.sampled_from(core.GRAD_CTXS)),
             'layout': list(draw(st.sampled_from([(2, -1)] * 5 + LAYOUT_POOL))),
             'rx': draw(core.recipe_strategy()), 'k': draw(st.integers(0, 10**6))}
 
@@ -65,6 +65,12 @@ def common_labels(r, case):
 
 
 def run_case(case):
+    with core.grad_ctx(case.get('ctx')):
+        r = _run_case(case)
+    return r.label('ctx_' + case['ctx']) if case.get('ctx', 'default') != 'default' else r
+
+
+def _run_case(case):
     from pytorch_wavelets import DTCWTForward
     r = Result()
     b, q, J = case['biort'], case['qshift'], case['J']
